@@ -565,7 +565,7 @@ Proof.
   destruct (dequeue_x s1 x READY) as (D1 & _ & _ & D4 & _ & _ & D7 & _ & _ & D10 & _).
   assert (Fx : tpc (th S' x) = tpc (th s x) /\ err (th S' x) = err (th s x) /\ ts (th S' x) = ts (th s x) /\
                wk (th S' x) = WTimeout /\ st (th S' x) = READY).
-  { subst S'. proj; proj. rewrite th_updT_same. simpl. rewrite D1, D4, D7, D10. repeat split; auto. }
+  { subst S'. proj; proj. rewrite th_updT_same. cbn [tpc err ts wk st t_wk]. rewrite D1, D4, D7, D10. repeat split; auto. }
   destruct Fx as (X1 & X2 & X3 & X4 & X5).
   assert (Fq : forall q y, In y (wqs S' q) -> In y (wqs s q) /\ y <> x).
   { intros q y H. subst S'. proj; proj. apply (dequeue_wqs s1 x READY W1) in H. exact H. }
